@@ -88,6 +88,13 @@ def handle : List String → Verdict
         nontrivial := enc.contains 'B' || enc.contains 'W',
         tags := ["tree"] ++ sh, sig := "tree;" ++ String.intercalate "+" sh }
     | _, _ => .badOp
+  | ["layer", name, wantH, gotH] =>
+    match hexField wantH, hexField gotH with
+    | some want, some got =>
+      let show_ := fun (b : Bytes) => String.ofList (b.map fun c => Char.ofNat c.toNat)
+      { predfail := if want == got then none else some s!"hand-written layer ({name}): callees did not get the blocks of their own calls: {show_ got} instead of {show_ want}",
+        nontrivial := true, tags := ["layer:" ++ name], sig := "layer;" ++ name }
+    | _, _ => .badOp
   | ["evalcount", name, callsS, outH] =>
     match callsS.toNat?, hexField outH with
     | some calls, some out =>
